@@ -38,6 +38,8 @@ fn cfg_for(config: &str) -> GenCfg {
     "files-replay" => { c.files = true; c.replays = 0b1001; c.bottom_up = 40; c.all_roots_td = true; }
     "id-td" => { c.wrappers = true; }
     "id-bu" => { c.wrappers = true; c.bottom_up = 60; c.all_roots_td = true; }
+    "id-bu-crash" => { c.wrappers = true; c.bottom_up = 60; c.all_roots_td = true; c.crash = true; }
+    "v-td-checkerr" => { c.class = Class::V; c.check_errors = true; }
     "v-td" => { c.class = Class::V; }
     "v-td-crash" => { c.class = Class::V; c.crash = true; }
     "v-bu-big" => { c.class = Class::V; c.bottom_up = 70; c.td_between = true; c.big = true; }
@@ -241,9 +243,11 @@ fn replay_variant(scn: &Scenario, prop: &str, variant: u8) -> Vec<String> {
     2 => {
       // Unrelated instances first (same thread, so allocator state and per-thread hash counters have moved).
       let mut rng = Rng::new(scn.hash_seed.unwrap_or(7) ^ 0xDEAD_BEEF);
-      for _ in 0..2 {
+      for k in 0..4 {
         let cfg = GenCfg::default();
-        let program = gen_program_w(&mut rng, &cfg);
+        // Unrelated instances that end in a diagnosed cycle as well: whatever an aborted build leaves behind outside
+        // its own instance (thread-local scratch space, ...) must not matter either.
+        let program = if k == 0 { gen_program_w(&mut rng, &cfg) } else { gen_program_x(&mut rng, &cfg, 3) };
         let (init, steps, faults) = gen_history(&mut rng, &program, &cfg);
         let other = Scenario { hash_seed: Some(rng.next()), program, init, steps, faults, replays: 0, proc_replay: false };
         let mut r = run::Runner::new(&other, prop);
